@@ -62,6 +62,8 @@ func main() {
 		cmdBlockMap(fs, os.Args[2:])
 	case "cache":
 		cmdCache(fs, os.Args[2:])
+	case "dcache":
+		cmdDcache(fs, os.Args[2:])
 	case "probe":
 		cmdProbe(fs, os.Args[2:])
 	case "simpleconc":
